@@ -152,8 +152,8 @@ theorem N3_eigentensors (hc : c * c = 2) (m00 m01 m02 m10 m11 m12 m20 m21 m22 : 
       = M3.mandel3 c (M3.outer m00 m10 m20 m00 m10 m20) ++ M3.mandel3 c (M3.outer m01 m11 m21 m01 m11 m21)
         ++ M3.mandel3 c (M3.outer m02 m12 m22 m02 m12 m22) := by
   simp only [M3.mandel3, List.cons_append, List.nil_append]; c05_eq hc
-theorem N2_eigentensors (hc : c * c = 2) (m00 m01 m02 m10 m11 m12 m20 m21 m22 : K) :
-    Gen.N2_eigentensors_all c c3 fn m00 m01 m02 m10 m11 m12 m20 m21 m22
+theorem N2_eigentensors (hc : c * c = 2) (m00 m01 m10 m11 : K) :
+    Gen.N2_eigentensors_all c c3 fn m00 m01 0 m10 m11 0 0 0 1
       = M3.mandel2 c (M3.outer m00 m10 0 m00 m10 0) ++ M3.mandel2 c (M3.outer m01 m11 0 m01 m11 0)
         ++ M3.mandel2 c (M3.outer 0 0 1 0 0 1) := by
   simp only [M3.mandel2, List.cons_append, List.nil_append]; c05_eq hc
